@@ -141,7 +141,7 @@ PROPS = {
         engine="codec-harness",
     ),
     "C13": dict(
-        lean_modules=["Swim.Model.Ingest", "Swim.Props.C13", "Swim.Model.Msgpack", "Swim.Props.Msgpack", "Swim.Props.Handoff"],
+        lean_modules=["Swim.Model.Ingest", "Swim.Props.C13", "Swim.Model.Msgpack", "Swim.Props.Msgpack", "Swim.Props.Handoff", "Swim.Model.Acks", "Swim.Props.C19"],
         tests="^TestC13$",
         shards_quick=4,
         rule=("(pkt) random framing trees on the plaintext packet path (compound nesting to depth 4, user / unsupported / undecodable leaves, "
